@@ -610,6 +610,17 @@ func (state *BuildState) LogBuildError(label BuildLabel, status BuildResultStatu
 		Err:         err,
 		Description: fmt.Sprintf(format, args...),
 	})
+	if status == TargetBuildFailed {
+		// Anything waiting for this target to build (e.g. a subinclude) needs to find out that it's not
+		// going to; it will see the target's failed state when it wakes up.
+		if ch := state.progress.pendingTargets.Get(label); ch != nil {
+			select {
+			case <-ch: // already closed
+			default:
+				close(ch)
+			}
+		}
+	}
 }
 
 // logResult logs a build result directly to the state's queue.
